@@ -140,6 +140,13 @@ def cases(rng, tier):
     seeds = [genb.ref_bundle(genb.reorder(rng, genb.rnd_bundle(rng, nblocks=rng.randrange(0, 5)), free=True))[0] for _ in range(400)]
     seeds += [genb.ref_bundle(b)[0] for b in genb.zero_crc_bundles()]
     seeds += _targeted(rng)
+    # every seed also goes through the receive path UNMUTATED, and so do conformant bundles with many blocks (sizes around every
+    # small fixed-size buffer or bit set a receiver might use: 8, 16, 17, 23, 24, 32, 33, 64, 65, 128, 129, 255, 256, 300)
+    big = [genb.ref_bundle(genb.reorder(rng, genb.rnd_bundle(rng, nblocks=n, crc_kind=rng.randrange(3))))[0]
+           for n in (7, 8, 9, 15, 16, 17, 22, 23, 24, 31, 32, 33, 63, 64, 65, 127, 128, 129, 255, 256, 300)]
+    for buf in seeds + big:
+        out.append(_rx(rng, buf))
+    seeds += big[:12]
     for _ in range(nm // 40):
         nb = rng.randrange(0, 4)
         b = genb.rnd_bundle(rng, nblocks=nb)
